@@ -27,10 +27,46 @@ fn check(nn: usize) -> Option<Cex> {
     x.map(|(o, e)| Cex { input: format!("{}", nn), observed: format!("limit {}: {}", nn, o), expected: e })
 }
 
+/// a large limit, element by element against an independent sieve of Eratosthenes (least prime factors), every factorisation included
+fn check_big(nn: usize) -> Option<Cex> {
+    let mut spf = vec![0u32; nn + 1];
+    for i in 2..=nn { if spf[i] == 0 { let mut j = i; while j <= nn { if spf[j] == 0 { spf[j] = i as u32; } j += i; } } }
+    let r = guarded(|| {
+        let s = Sieve::new(nn);
+        let mut primes = Vec::new();
+        for n in 0..=nn {
+            let p = n >= 2 && spf[n] as usize == n;
+            if s.is_prime(n as i32) != p { return Some((format!("is_prime({}) = {}", n, s.is_prime(n as i32)), format!("{}", p))); }
+            if p { primes.push(n as i32); }
+            if n >= 2 && s.min_prime(n as i32) != spf[n] as i32 { return Some((format!("min_prime({}) = {}", n, s.min_prime(n as i32)), format!("{}", spf[n]))); }
+            if n >= 1 {
+                let mut it = s.factorize(n as i32);
+                let mut m = n;
+                while m > 1 {
+                    let q = spf[m] as usize; let mut c = 0; while m % q == 0 { m /= q; c += 1; }
+                    let g = it.next();
+                    if g != Some((q as i32, c)) { return Some((format!("factorize({}) yields {:?}", n, g), format!("{:?}", (q, c)))); }
+                }
+                if let Some(extra) = it.next() { return Some((format!("factorize({}) yields an extra {:?}", n, extra), "end of the factorisation".into())); }
+            }
+        }
+        if *s.primes() != primes { return Some((format!("primes() has {} entries, last {:?}", s.primes().len(), s.primes().last()), format!("{} primes, last {:?}", primes.len(), primes.last()))); }
+        None
+    });
+    let x = match r { Ok(x) => x, Err(e) => Some((e, "no panic".into())) };
+    x.map(|(o, e)| Cex { input: format!("big{}", nn), observed: format!("limit {}: {}", nn, o), expected: e })
+}
+
 pub fn run(_seed: u64, replay: Option<String>) -> Outcome {
-    if let Some(r) = replay { return Outcome { cex: check(r.parse().unwrap_or(10)), cases: 1 }; }
+    if let Some(r) = replay {
+        if let Some(b) = r.strip_prefix("big") { return Outcome { cex: check_big(b.parse().unwrap_or(1000)), cases: 1 }; }
+        return Outcome { cex: check(r.parse().unwrap_or(10)), cases: 1 };
+    }
+    let thorough = std::env::var("VERIF_TIER").map(|t| t == "thorough").unwrap_or(false);
     let mut cases = 0;
-    for n in 0..=400usize { cases += 1; if let Some(c) = check(n) { return Outcome { cex: Some(c), cases }; } }
-    for n in [1000usize, 4096, 10007] { cases += 1; if let Some(c) = check(n) { return Outcome { cex: Some(c), cases }; } }
+    // every limit up to a few thousand: every position of N relative to primes and prime squares
+    for n in 0..=(if thorough { 3000usize } else { 1200 }) { cases += 1; if let Some(c) = check(n) { return Outcome { cex: Some(c), cases }; } }
+    for n in [4096usize, 10007, 65535, 65536, 65537, 1_000_000] { cases += 1; if let Some(c) = check_big(n) { return Outcome { cex: Some(c), cases }; } }
+    if thorough { cases += 1; if let Some(c) = check_big(10_000_000) { return Outcome { cex: Some(c), cases }; } }
     Outcome { cex: None, cases }
 }
